@@ -82,13 +82,13 @@ def props():
             out.append(s)
         if pr.get("partial"):
             out.append("")
-            out.append("**Partial.** " + " ".join(pr["partial"]))
+            out.append("**Partial.** " + " ".join(x if isinstance(x, str) else "; ".join("%s: %s" % kv for kv in x.items()) for x in pr["partial"]))
         if pr.get("trusted"):
             out.append("")
-            out.append("**Trusted / modelled rather than verified.** " + "; ".join(pr["trusted"]) + ".")
+            out.append("**Trusted / modelled rather than verified.** " + "; ".join(str(x) for x in pr["trusted"]) + ".")
         if pr.get("assumptions"):
             out.append("")
-            out.append("**Assumptions.** " + "; ".join(pr["assumptions"]) + ".")
+            out.append("**Assumptions.** " + "; ".join(str(x) for x in pr["assumptions"]) + ".")
         if tx.get("note"):
             out.append("")
             out.append("**Note.** " + tx["note"])
